@@ -385,6 +385,15 @@ class TimeTriggeredPlanValidator(engines.engine.Engine, mixins.PlanValidatorMixi
                             # Handle "delete before add" semantics
                             if v.bool_constant_value():
                                 updates[f] = v
+                        elif (
+                            f in assigned
+                            and assigned[f] == ai
+                            and eff.is_assignment()
+                            and updates[f].constant_value() == v.constant_value()
+                        ):
+                            # the same action assigns the same value twice: not a
+                            # conflict (as in the UPSequentialSimulator)
+                            pass
                         else:
                             raise UPConflictingEffectsException("Double effect")
                     else:
